@@ -278,8 +278,32 @@ func (c *Ctx) commitAfterUse() {
 		}
 		// and whatever the writer took is committed before the drain peeks again: no way from the write back to the next
 		// peek passes by the commit (a `continue` on a timed-out short write sends the accepted bytes a second time)
+		isWriteCall := func(call ssa.CallInstruction) bool {
+			return call.Common().IsInvoke() && call.Common().Method.Name() == "Write"
+		}
+		// a private helper that writes and, whenever nothing failed, commits (writeChunk): its call is write and commit in one
+		writesAndCommits := map[*ssa.Function]bool{}
+		for _, h := range hosts[1:] {
+			gh := paths.New(c.P, h, 0)
+			ws := nodesMatching(gh, nodeM(isWriteCall))
+			if len(ws) == 0 {
+				continue
+			}
+			all := true
+			for _, wn := range ws {
+				if mustPass(gh, gh.Succ(wn), nodeM(mMethod(pkgService, "buffer", "ReadCommit")), Assume{"err:*": false}) != nil {
+					all = false
+				}
+			}
+			if all {
+				writesAndCommits[h] = true
+			}
+		}
 		g := paths.New(c.P, wt, 1)
 		g.Expand = func(callee *ssa.Function, site ssa.CallInstruction) bool {
+			if writesAndCommits[callee] {
+				return false
+			}
 			for _, h := range hosts[1:] {
 				if callee == h {
 					return true
@@ -287,18 +311,18 @@ func (c *Ctx) commitAfterUse() {
 			}
 			return false
 		}
-		isWrite := nodeM(func(call ssa.CallInstruction) bool {
-			return call.Common().IsInvoke() && call.Common().Method.Name() == "Write"
-		})
+		isWrite := nodeM(isWriteCall)
 		isPeek := nodeM(mMethod(pkgService, "buffer", "ReadPeek"))
-		isCommit := nodeM(mMethod(pkgService, "buffer", "ReadCommit"))
+		isCommit := nodeM(func(call ssa.CallInstruction) bool {
+			return ir.IsMethod(call.Common(), pkgService, "buffer", "ReadCommit") || writesAndCommits[call.Common().StaticCallee()]
+		})
 		var bad []paths.Node
 		for _, wn := range nodesMatching(g, isWrite) {
 			if p := g.FindPath(g.Succ(wn), isCommit, isPeek); p != nil {
 				bad = append([]paths.Node{wn}, p...)
 			}
 		}
-		if len(nodesMatching(g, isWrite)) > 0 && len(nodesMatching(g, isPeek)) > 0 {
+		if (len(nodesMatching(g, isWrite)) > 0 || len(writesAndCommits) > 0) && len(nodesMatching(g, isPeek)) > 0 {
 			if bad != nil {
 				c.R.Bad(ruleP5, "WriteTo:commit-before-the-next-peek", c.P.InstrPos(bad[0].Instr), "the drain can peek again after a write without committing what the writer accepted: those bytes are written to the connection a second time (a duplicated run in the middle of the stream)", c.witness(g, bad)...)
 			} else {
